@@ -306,12 +306,22 @@ fn check_inner(c: &Case) -> CaseResult {
         if bad {
             let chains = qgen::expand_chains(&p.root);
             let shape = factorized_shape(&reference, o);
-            let sig = if chains == 0 { "c09/factorized-only/no-chain".to_string() } else { format!("c09/factorized-only/{shape}") };
+            // a DETACH DELETE over a multi-hop pattern: the rows agree and only the database left behind differs —
+            // deletion is interleaved with matching, and flat / factorized execution enumerate the bindings in
+            // different orders (known finding C09-factorized-delete-interleaving)
+            let delete_state_only = matches!(c.query.write, Some(qgen::WriteSpec::Delete(_))) && agree(&reference, o) && *d != ref_dump && chains > 0;
+            let sig = if chains == 0 {
+                "c09/factorized-only/no-chain".to_string()
+            } else if delete_state_only {
+                "c09/factorized-only/delete-leaves-different-database".to_string()
+            } else {
+                format!("c09/factorized-only/{shape}")
+            };
             return fail(
                 sig,
                 format!(
-                    "{full_text}\n flat: {}\n factorized ({name}, {chains} expand chain(s)): {}\n plan: {}",
-                    short(&reference), short(o), crate::driver::truncate(&format!("{:?}", p.root), 1200)
+                    "{full_text}\n flat: {} (database after: {} lines)\n factorized ({name}, {chains} expand chain(s)): {} (database after: {} lines; same database: {})\n plan: {}",
+                    short(&reference), ref_dump.len(), short(o), d.len(), *d == ref_dump, crate::driver::truncate(&format!("{:?}", p.root), 1200)
                 ),
             );
         }
